@@ -36,6 +36,10 @@ def skeletons(tier):
             if tier == "quick" and n == 3 and w.count("M") + w.count("O") > 1:
                 continue
             out.append({"id": "O" + w, "word": w, "params": {"hi": hi}})
+    # long traces with small correlation ids: 130 (concrete, far away) host operators before the word, so that row ids
+    # exceed the range of the narrow integer dtype the correlation column is downcast to
+    for w in (["RK", "KR", "RE"] if tier == "quick" else ["RK", "KR", "RE", "RKK", "RKE", "RRK"]):
+        out.append({"id": f"O+130+{w}", "word": w, "params": {"hi": hi, "pad": 130}})
     return out
 
 
@@ -44,7 +48,11 @@ def build(sk):
     ev = [TG.op("aten::mm", "$e0_ts", "$e0_dur")]
     info = [{"id": 0, "side": "host", "corr": -1, "row": True, "stream": -1, "ts": "$e0_ts", "dur": "$e0_dur"}]
     vars_ = {}
-    for i, ch in enumerate(sk["word"], start=1):
+    pad = sk["params"].get("pad", 0)
+    for j in range(pad):
+        ev.append(TG.op("aten::pad", 2 ** 41 + 10 * j, 5))
+        info.append({"id": 1 + j, "side": "host", "corr": -1, "row": True, "stream": -1, "ts": 2 ** 41 + 10 * j, "dur": 5})
+    for i, ch in enumerate(sk["word"], start=1 + pad):
         ts, dur, c = f"$e{i}_ts", f"$e{i}_dur", f"$e{i}_c"
         if ch == "O":
             ev.append(TG.op("aten::add", ts, dur))
@@ -69,6 +77,16 @@ def build(sk):
 
 
 def run(ctx):
+    from symx import pdcore
+    # long-trace skeletons: the width of downcast integer columns is decided by the solver (as in C01's small family)
+    pdcore.NARROW["symbolic"] = bool(ctx.sk["params"].get("pad")) and ctx.mode == "sym"
+    try:
+        return _run(ctx)
+    finally:
+        pdcore.NARROW["symbolic"] = False
+
+
+def _run(ctx):
     ev, info, vars_ = build(ctx.sk)
     ctx.sk.setdefault("vars", {}).update(vars_)
     events = ctx.val(ev)
